@@ -163,6 +163,8 @@ type Solver struct {
 	escModel  map[int32]uint64 // model of the last escalated sat answer (valid until the scope is released)
 	satBy     *backend         // back end that answered sat for the open kept scope
 	Where     string           // diagnostics: source position of the current query
+	spawn     func(name string) (*backend, error)
+	Restarts  int
 }
 
 // New starts the solver. kind: "race" (z3 + cvc5 int-blasting, default), "z3", "cvc5i", "z3-new", "cvc5".
@@ -172,7 +174,7 @@ func New(kind string, timeoutMs int) (*Solver, error) {
 	}
 	s := &Solver{Kind: kind, TimeoutMs: timeoutMs, FastMs: 4000, defined: map[int32]bool{}, declaredA: map[int32]bool{},
 		EscWins: map[string]int{}, Wins: map[string]int{}, msgs: make(chan msg, 1<<14)}
-	add := func(name string) error {
+	s.spawn = func(name string) (*backend, error) {
 		var b *backend
 		var err error
 		switch name {
@@ -189,8 +191,12 @@ func New(kind string, timeoutMs int) (*Solver, error) {
 			b, err = startBackend("cvc5", []string{"cvc5", "--incremental", "--lang=smt2", "--produce-models",
 				fmt.Sprintf("--tlimit-per=%d", s.FastMs)}, "(set-logic QF_ABV)\n", s.msgs)
 		default:
-			return fmt.Errorf("unknown solver %q", name)
+			return nil, fmt.Errorf("unknown solver %q", name)
 		}
+		return b, err
+	}
+	add := func(name string) error {
+		b, err := s.spawn(name)
 		if err != nil {
 			return err
 		}
@@ -280,6 +286,15 @@ func (s *Solver) kill(b *backend, why string) {
 
 // BeginPath opens the scope of one explored path.
 func (s *Solver) BeginPath() {
+	// a back end that died or lost synchronisation is replaced by a fresh process (no state is carried between paths)
+	for i, b := range s.bs {
+		if b.dead {
+			if nb, err := s.spawn(b.name); err == nil {
+				s.bs[i] = nb
+				s.Restarts++
+			}
+		}
+	}
 	if s.alive() > 0 {
 		s.Err = nil // errors are per query; a dead solver set stays an error
 	}
